@@ -566,7 +566,7 @@ def bounded(rep: Report, tier: str, seed: int) -> None:
                         rep.violations.append(
                             Violation(
                                 key=key,
-                                what="%s [built via %s]: %s" % (_describe(r["case"], r["route"]), "text" if r["route"] == "T" else "API", O.short(dets[0], 420)),
+                                what="%s [built via %s]: %s" % (_describe(r["case"], r["route"]), "text" if r["route"] == "T" else "API", O.short(dets[0], 420).replace("\n", " ").replace("\t", " ")),
                                 replay={"module": "cbc.c12", "case": {"case_json": json.dumps(r["case"]), "depth": r["case"]["depth"], "route": r["route"], "seed": seed, "n_tables": sc["n_tables"]}, "n_keys": len(r["keys"])},
                             )
                         )
